@@ -4,6 +4,7 @@
 mod common;
 mod concmon;
 mod crashmon;
+mod cyphermon;
 mod robust;
 mod storemon;
 mod structmon;
@@ -27,6 +28,28 @@ fn main() {
     }
     if id == "C10-worker" {
         concmon::handles::worker(&argv[1]);
+        return;
+    }
+    if id == "probe" {
+        // vmon probe "<cypher>" ["<setup cypher>" ...]: run on a scratch database, print rows
+        let dir = common::sut::ScratchDir::new("probe");
+        let db = ndb_core::Db::open(dir.db_base()).expect("open");
+        let p = ndb_core::query::Params::new();
+        for setup in &argv[2..] {
+            println!("setup {setup}: {:?}", common::cypher::run_write(&db, setup, &p).map(|(r, n)| (common::cypher::canon_rows(&r, true), n)));
+        }
+        match common::cypher::run_read(&db, &argv[1], &p, true) {
+            Ok(rows) => {
+                for r in common::cypher::canon_rows(&rows, true) {
+                    println!("{r}");
+                }
+            }
+            Err(e) => println!("ERR {e}"),
+        }
+        return;
+    }
+    if id == "probe-limit" {
+        cyphermon::limits::probe(&argv[1], argv[2].parse().unwrap());
         return;
     }
     if id == "crash-show" {
@@ -55,6 +78,13 @@ fn main() {
         "C30" => storemon::bulk::main(&args),
         "C31" => storemon::vector::main(&args),
         "C32" => storemon::ids::main(&args),
+        "C15" => cyphermon::index::main(&args),
+        "C19" => cyphermon::tlp::main(&args),
+        "C20" => cyphermon::order::main(&args),
+        "C21" => cyphermon::aggr::main(&args),
+        "C22" => cyphermon::errors::main(&args),
+        "C23" => cyphermon::laws::main(&args),
+        "C33" => cyphermon::limits::main(&args),
         "C25" => robust::codec::main(&args),
         "C26" => structmon::btree::main(&args),
         "C27" => structmon::keys::main(&args),
